@@ -306,3 +306,33 @@ REGISTRY["C20"] = dict(_c20a, **{
                    "stub": _c20a["components"]["stub"] + ["part B: the peer set / server.go request logic = harness (asks GetUnknownMPTNodesBatch, fetches nodes from the source with Module.Traverse)"]},
     "assumptions": _c20a["assumptions"] + ["part B: the peers' height shown to Module.Init is such that header P+1 exists on the source"],
 })
+
+
+# C11 = trie-level life cycle (engine mptsim, 3 workers out of 4) + the same audit of the raw DataMPT records on the databases of real
+# pruning Blockchain replicas (engine ledger, 1 worker out of 4).
+_c11a = REGISTRY["C11"]
+REGISTRY["C11"] = dict(_c11a, **{
+    "engine": ["mptsim", "mptsim", "ledger", "mptsim"],
+    "level_text": ("part A: " + _c11a["level_text"] + "; part B: the replicated-ledger simulation of C01 with pruning replicas "
+                   "(RemoveUntraceableBlocks with MaxTraceableBlocks 8/12, and/or KeepOnlyLatestState) on memory/BoltDB/LevelDB behind "
+                   "simdisk, real timer-driven flushes with garbage collection, flushes placed inside storeBlock, clean restarts; after "
+                   "tape-chosen blocks and at the end the raw DataMPT records of the replica's database are walked by the hand-written "
+                   "decoder: the current root is completely present and holds exactly the producer's flat contract storage of that "
+                   "height, reference counters equal the number of referencing parents, no record is unreachable from the retained roots "
+                   "beyond those awaiting the next GC pass, and every root inside the retention window is completely stored"),
+    "level_note": ("part A: " + _c11a["level_note"] + ". part B: trusted: the same walker, the producer's flat map taken through "
+                   "Blockchain.SeekStorage, the harness' computation of the retention window (height - MaxTraceableBlocks, GC only after "
+                   "a timer-driven flush as in bc.persist)"),
+    "design_ref": "DESIGN.md section 2, C11; section 9",
+    "technique": _c11a["technique"] + "; chain level: real pruning ledgers under seeded flush/GC/restart schedules, same raw-record audit",
+    "chunk": {"mptsim": 200, "ledger": 20},
+    "inflight": True,
+    "rule": ("part A: " + _c11a["rule"] + " || part B: one run = a seeded history of 14-40 blocks (transfers, contract storage churn, "
+             "deploy/update/destroy, governance) on one producer and 1-3 pruning replicas; a run is non-trivial when an audit ran; "
+             "distinct = distinct event-log hash"),
+    "probes": _c11a["probes"] + ["c11_audits", "c11_records", "c11_inactive_records", "c11_retained_roots_walked", "forced_flush",
+                                 "timer_flush_tick", "clean_restart", "flush_inside_block"],
+    "components": {"real": _c11a["components"]["real"] + ["part B: pkg/core.Blockchain.storeBlock/persist/tryRunGC, stateroot.Module, mpt in reference-counting modes, storage backends behind simdisk"],
+                   "stub": _c11a["components"]["stub"] + ["part B: consensus = harness block builder (producer signs with the real validator keys)"]},
+    "assumptions": _c11a["assumptions"] + ["part B: replicas receive every block exactly once in order (delivery faults belong to C19/C20)"],
+})
